@@ -472,6 +472,10 @@ func targets(ss []*seed, thorough bool) []target {
 		if !s.quick && !thorough {
 			continue
 		}
+		wrapped := wrapped
+		if thorough && s.quick {
+			wrapped = all // the small seeds go through the message wrappers with every class
+		}
 		add := func(e int, cl []int) {
 			if !shortDone[e] && e <= 9 {
 				// all strings of length <= 2 do not depend on the seed: once per direct decoder
